@@ -43,6 +43,35 @@ pub struct Case {
     pub base: EngineCase,
     pub alignment: bool,
     pub times: Option<Vec<Option<(f64, f64)>>>,
+    /// Some(two_streams): the Condition was first loaded for ANOTHER voice (a 2- or 3-stream
+    /// fixture with other rates, states and options) and then for this one
+    #[serde(default)]
+    pub prior_voice: Option<bool>,
+}
+
+/// Two small generated voices (2 and 3 streams) that serve as "the voice loaded before".
+pub fn prior_voice_set(two_streams: bool) -> Result<jbonsai::model::VoiceSet, Failure> {
+    use std::sync::{Arc, OnceLock};
+    static V: OnceLock<Vec<Arc<jbonsai::model::Voice>>> = OnceLock::new();
+    let v = V.get_or_init(|| {
+        let mut out = Vec::new();
+        for want_two in [true, false] {
+            for seed in 0u32..200 {
+                let words: Vec<u32> = (0..6000u32).map(|j| (crate::util::hash64(&(seed, j, 0xC01u32)) >> 16) as u32).collect();
+                let mut t = Tape::new(&words);
+                let spec = crate::voice::gen_voice(&mut t, GenOpts { max_depth: 2, ..GenOpts::default() });
+                if (spec.streams.len() == 2) == want_two {
+                    if let Ok(v) = crate::engine_case::load_spec_voice(&spec) {
+                        out.push(v);
+                        break;
+                    }
+                }
+            }
+        }
+        out
+    });
+    let pick = v.get(if two_streams { 0 } else { 1 }).cloned().ok_or_else(|| Failure::new("harness", "no prior-voice fixture"))?;
+    jbonsai::model::VoiceSet::new(vec![pick]).map_err(|e| Failure::new("voiceset", e.to_string()))
 }
 
 /// max over a grid of |log H - b0| for a mel-cepstrum after postfilter scaling.
@@ -194,10 +223,27 @@ impl Prop for Synthesis {
         } else {
             None
         };
-        Case { base, alignment, times }
+        let prior_voice = if t.chance(0.15) { Some(t.chance(0.5)) } else { None };
+        Case { base, alignment, times, prior_voice }
     }
     fn check(&self, c: &Case) -> Result<Report, Failure> {
         let (mut engine, info) = build_engine(&c.base.voice)?;
+        if let Some(two) = c.prior_voice {
+            let prior = prior_voice_set(two)?;
+            let mut cond = jbonsai::Condition::default();
+            if let Err(e) = cond.load_model(&prior) {
+                fail!("load-model", "Condition::load_model failed on a valid voice: {}", e);
+            }
+            match catch(|| cond.load_model(&engine.voices).map(|_| cond)) {
+                Ok(Ok(mut cond)) => {
+                    // the interpolation weights of voice sets were set by build_engine
+                    *cond.get_interporation_weight_mut() = engine.condition.get_interporation_weight().clone();
+                    engine = Engine::new(engine.voices.clone(), cond);
+                }
+                Ok(Err(e)) => fail!("load-model", "Condition::load_model failed on a valid voice after another voice: {}", e),
+                Err(p) => fail!(p.signature(), "Condition::load_model panicked: {}", p.msg),
+            }
+        }
         c.base.cond.apply(&mut engine);
         engine.condition.set_phoneme_alignment_flag(c.alignment);
         let lines = match &c.times {
@@ -286,6 +332,16 @@ impl Prop for Synthesis {
         rep.class(c.base.voice.class());
         rep.class(format!("source:{}", c.base.source));
         rep.class(if stable { "stable-range:yes" } else { "stable-range:no" });
+        if c.prior_voice.is_some() {
+            // and nothing of the earlier voice may be left: same waveform as a fresh engine
+            let (mut fresh, _) = build_engine(&c.base.voice)?;
+            c.base.cond.apply(&mut fresh);
+            fresh.condition.set_phoneme_alignment_flag(c.alignment);
+            let w2 = fresh.synthesize(lines.as_slice()).map_err(|e| Failure::new("synthesize-error", e.to_string()))?;
+            let same = w2.len() == wave.len() && w2.iter().zip(&wave).all(|(a, b)| a.to_bits() == b.to_bits() || (a.is_nan() && b.is_nan()));
+            ensure!(same, "reload-leftover", "an engine whose condition was loaded for another voice first renders differently from a fresh engine with the same settings");
+            rep.class("condition-loaded-for-another-voice-first");
+        }
         rep.class_if(c.alignment, "alignment:on");
         rep.class_if(c.times.is_some(), "alignment:with-times");
         rep.class_if(nlabels == 0, "empty");
